@@ -322,7 +322,7 @@ pub fn gen_scen(rng: &mut Rng, _thorough: bool) -> Scen {
             // per-evaluation time limit: slow ones are killed with their group and counted as rejected
             let n = 2 + rng.below(5) as usize;
             let mut sc = base_scen("kill-after");
-            sc.opts = vec![s("-n"), n.to_string(), s("-k"), s("700ms"), s("--num-concurrent"), (1 + rng.below(2)).to_string()];
+            sc.opts = vec![s("-n"), n.to_string(), s("-k"), s("1200ms"), s("--num-concurrent"), (1 + rng.below(2)).to_string()];
             let mut seeds = serde_json::Map::new();
             let mut slow = 0;
             for sd in 0..n { if rng.chance(1, 2) && slow < 3 { slow += 1; seeds.insert(sd.to_string(), json!({"wait": true, "fork": *rng.pick(&["none", "keep", "detach-stdio"]), "fork_ignore_term": rng.chance(1, 2), "ignore_term": rng.chance(1, 2), "value_of_seed": "neg"})); } }
